@@ -42,7 +42,7 @@ def run(ctx):
         hs += more
     # longer histories than the exhaustive bound: the same innermost block under two different outer blocks (a cached
     # merge must not survive the change of a dictionary below the top), and random walks of 6-12 events
-    ids = ["e", "a1", "A2", "a3", "b1", "ab", "cl", "ct", "ua", "UA", "ho", "HO"]
+    ids = ["e", "a1", "A2", "a3", "b1", "ab", "cl", "ct", "ua", "UA", "ho", "HO", "t1"]
     twins = [{"h": [rnd.choice(ids), ["enter", x], ["enter", h], [rnd.choice(["call", "notify", "batch"])], ["exitN"], [rnd.choice(["exitN", "exitE"])],
                     ["enter", y], ["enter", h], [rnd.choice(["call", "notify", "batch"])], ["exitN"], ["exitN"], ["call"]]}
              for x in ids for y in ids for h in ids if x != y]
@@ -64,6 +64,7 @@ def run(ctx):
                 w.append([rnd.choice(["call", "notify", "batch"])])
         walks.append({"h": w})
     hs += twins[:150 if quick else len(twins)] + walks
+    rnd.shuffle(hs)                # (every kind of history on every transport / part)
     nparts = 8
     parts = list(common.chunks(hs, (len(hs) + nparts - 1) // nparts))
     cmds, files = [], []
